@@ -4,84 +4,14 @@ Builds h_c04.c once per configuration of the matrix (DESIGN 7), runs each binary
 reports.  Reference material (hashlib tables, Streebog tables parsed from the header, the C
 reference object) is generated first into build/C04/.
 """
-import os, subprocess, sys
-from concurrent.futures import ThreadPoolExecutor
+import os, sys
 from vlib import core
 
 HERE = os.path.dirname(os.path.abspath(__file__))
 sys.path.insert(0, HERE)
-import gen_ref  # noqa: E402
+import matrix  # noqa: E402
 
 PROP = 'C04'
-
-# compile-time variants of the matrix: name -> flags
-VARIANTS = {
-    'nosimd':   ['-DH_NOSIMD'],                       # #undef __SSE2__ before the headers (as tests/hash/main.c)
-    'nosse2':   ['-mno-sse2'],                        # the other way the headers allow to switch SIMD off
-    'sse2':     ['-msse2'],
-    'ssse3':    ['-mssse3'],
-    'sse41':    ['-msse4.1'],
-    'avx':      ['-mavx'],
-    'avx2':     ['-mavx2'],
-    'shani':    ['-msha', '-msse4.1'],                # the headers define SHA1/SHA2_ENABLE_SIMD themselves
-    'smalltab': ['-DGOST3411_2012_USE_SMALL_TABLES', '-DH_NOSIMD'],   # header: "Incompatible with SIMD"
-    'smalltab-tau': ['-DGOST3411_2012_USE_SMALL_TABLES', '-DGOST3411_2012_USE_SMALL_TABLES_TABLE_TAU', '-DH_NOSIMD'],
-    'native':   ['-mavx2', '-msha'],                  # what -march=native gives here: every transform in one binary
-}
-MATRIX_VARIANTS = ['nosimd', 'sse2', 'ssse3', 'sse41', 'avx', 'avx2', 'shani', 'smalltab']
-
-
-def configs(tier):
-    """(name, cc, opt, variant, level)"""
-    if tier == 'quick':
-        # covering subset: every compile-time variant, both compilers, every -O level at least once
-        return [('gcc-O2-native', 'gcc', '-O2', 'native', 0),
-                ('clang-O3-nosimd', 'clang', '-O3', 'nosimd', 0),
-                ('gcc-O0-smalltab', 'gcc', '-O0', 'smalltab', 0),
-                ('clang-O2-sse41', 'clang', '-O2', 'sse41', 0),
-                ('gcc-O3-avx', 'gcc', '-O3', 'avx', 0),
-                ('clang-O0-shani', 'clang', '-O0', 'shani', 0),
-                ('gcc-O2-avx2', 'gcc', '-O2', 'avx2', 0),
-                ('clang-O2-sse2', 'clang', '-O2', 'sse2', 0),
-                ('gcc-O2-ssse3', 'gcc', '-O2', 'ssse3', 0)]
-    out = [('gcc-O2-native', 'gcc', '-O2', 'native', 2),          # full cube: all alignments 0..63
-           ('clang-O2-native', 'clang', '-O2', 'native', 1)]
-    for cc in ('gcc', 'clang'):
-        for opt in ('-O0', '-O2', '-O3'):
-            for v in MATRIX_VARIANTS:
-                out.append(('%s%s-%s' % (cc, opt, v), cc, opt, v, 1))
-    out += [('gcc-O2-nosse2', 'gcc', '-O2', 'nosse2', 1), ('clang-O2-nosse2', 'clang', '-O2', 'nosse2', 1),
-            ('gcc-O2-smalltab-tau', 'gcc', '-O2', 'smalltab-tau', 1)]
-    return out
-
-
-def prepare_reference(rep, prop):
-    """Generate tables + the reference object into build/<prop>/.  Returns (libs, python_violation_checker)."""
-    bdir = core.build_dir(prop)
-    gen_ref.gen_expected(bdir)
-    gen_ref.gen_expected_hmac(bdir)
-    tables = gen_ref.parse_streebog_tables(core.REPO)       # TableError -> harness error (exit 2)
-    gen_ref.gen_streebog_tables(bdir, tables)
-    src = os.path.join(HERE, 'ref_streebog.c')
-    obj = os.path.join(bdir, 'ref_streebog.o')
-    subprocess.run(['gcc', '-O2', '-w', '-I' + bdir, '-c', src, '-o', obj], check=True)
-    selft = os.path.join(bdir, 'ref_selftest')
-    subprocess.run(['gcc', '-O2', '-w', '-I' + bdir, '-DREF_SELFTEST_MAIN', src, '-o', selft], check=True)
-
-    def python_checks():
-        """-> list of (target, clause, desc)"""
-        v = []
-        t = gen_ref.parse_streebog_tables(core.REPO)
-        bad = gen_ref.check_expanded_tables(t)
-        if bad:
-            v.append(('gost3411_2012_Ax', 'expanded-table-is-not-LPS-of-small-tables', '%d entries differ, first: %s' % (len(bad), bad[0])))
-        p = subprocess.run([selft], capture_output=True, text=True)
-        if p.returncode != 0:
-            v.append(('gost3411_2012_tables', 'published-vectors-not-reproduced',
-                      'the construction from the standard over the header\'s pi/tau/A/C does not reproduce RFC 6986 / RFC 7836 vectors: ' + p.stdout.strip()))
-        return v
-    return [obj], python_checks
-
 
 def run(tier):
     rep = core.Report(PROP, tier, 'model_checking',
@@ -99,53 +29,4 @@ def run(tier):
         'the sandbox CPU implements every instruction set a forced transform needs (sse4.1, avx2, sha_ni)',
         'message contents are the four fixed patterns; a value-dependent defect that these and the published vectors miss is outside the bound',
     ]
-    libs, python_checks = prepare_reference(rep, PROP)
-    for i, (target, clause, desc) in enumerate(python_checks()):
-        rep.add_violation(target, clause, i, desc, 'python')
-        rep.clauses[(target, clause)] = 1
-
-    cfgs = configs(tier)
-    bins = {}
-
-    def build(cfg):
-        name, cc, opt, var, level = cfg
-        try:
-            return name, core.compile_c(PROP, 'h_c04-' + name, ['harness/C04/h_c04.c'],
-                                        flags=VARIANTS[var] + ['-DH_LEVEL=%d' % level, '-I' + core.build_dir(PROP)],
-                                        cc=cc, opt=opt, san='asan', libs=libs, quiet=True), None
-        except core.BuildError as e:
-            errs = [l for l in str(e).splitlines() if 'error' in l]
-            return name, None, (errs[0] if errs else str(e)[-300:]).strip()[:300]
-    with ThreadPoolExecutor(max_workers=core.NCPU) as ex:
-        built = list(ex.map(build, cfgs))
-    ran = 0
-    for (name, cc, opt, var, level), (_, binary, err) in zip(cfgs, built):
-        entry = {'name': name, 'cc': cc, 'opt': opt, 'flags': VARIANTS[var], 'level': level}
-        if binary is None:
-            entry['status'] = 'skipped: does not compile'
-            rep.notes.append('configuration %s skipped, it does not compile: %s' % (name, err))
-            rep.configs.append(entry)
-            if var == 'nosimd':
-                rep.harness_errors.append('the plain configuration %s does not compile: %s' % (name, err))
-            continue
-        bins[name] = binary
-        core.run_sharded(rep, binary, tier, config=name)
-        entry['status'] = 'ran'
-        rep.configs.append(entry)
-        ran += 1
-    if 0 == ran:
-        rep.harness_errors.append('no configuration could be built')
-    m = rep.stats.get('_model', {})
-    rep.extra['states'] = int(m.get('states', 0))
-    rep.extra['transitions'] = int(m.get('transitions', 0))
-    rep.extra['traces_validated_against_impl'] = int(m.get('transitions', 0))
-    rep.extra['builds_run'] = ran
-    rep.extra['builds_skipped'] = len(cfgs) - ran
-
-    base_replay = core.make_replayer(lambda cfg: bins[cfg], tier)
-
-    def replayer(target, clause, idx, config):
-        if config == 'python':
-            return all(any(t == target and c == clause for t, c, _ in python_checks()) for _ in range(2))
-        return base_replay(target, clause, idx, config)
-    rep.finish(replayer)
+    matrix.run_matrix(rep, PROP, tier, 'harness/C04/h_c04.c', 'h_c04')
